@@ -9,3 +9,4 @@ open Femio.C19
 #print axioms C19_stale_nested_counterexample
 #print axioms C19_eviction_refreshes
 #print axioms C19_lru_sizes_positive
+#print axioms C19_no_future_values
